@@ -187,7 +187,8 @@ fn quartic_form0(r: &mut Rng) -> ([f64; 6], &'static str) {
 }
 
 fn quartic_arg(r: &mut Rng, lo_switch: f64, hi_switch: f64) -> (f64, &'static str) {
-    match r.below(13) {
+    match r.below(14) {
+        13 => (f64::MAX * r.uniform(0.2, 1.0), "v_top_binades"),
         12 => (ulps(1.0, r.pick(&[-8i64, -7, -6, -5, -4, -3, -2, -1, 1, 2, 3, 4, 5, 6, 7, 8])), "v_adjacent_floats_of_1"),
         0 => (ulps_fast(1.0, r.int(-3000, 3000)), "v_ulps_of_1"),
         1 => (1.0, "v_one"),
@@ -237,7 +238,7 @@ fn canaries10(m: &mut Mon, sink: &mut Sink) {
 }
 
 pub const FLOORS10: &[&str] = &[
-    "v:v_ulps_of_1", "v:v_adjacent_floats_of_1", "v:v_one", "v:v_ulps_of_lower_switch", "v:v_ulps_of_upper_switch", "v:x_sweep_-40_40", "v:v_tiny", "v:v_huge", "v:x_near_zero",
+    "v:v_ulps_of_1", "v:v_adjacent_floats_of_1", "v:v_top_binades", "v:v_one", "v:v_ulps_of_lower_switch", "v:v_ulps_of_upper_switch", "v:x_sweep_-40_40", "v:v_tiny", "v:v_huge", "v:x_near_zero",
     "form:one_hot", "form:benchmark_magnitudes", "form:from_integral", "form:common_scale", "v:v_repeated", "evaluated_on_fresh_thread", "branch_series", "branch_closed_form", "checked", "v_equals_one_exact",
 ];
 
@@ -300,6 +301,14 @@ pub fn drive10(a: &Args, m: &mut Mon, sink: &mut Sink) {
             continue;
         }
         prev_v = v;
+        let mut form = form;
+        if vc == "v_top_binades" {
+            // keep the terms v * c_j * x^j finite: the whole form at a tiny scale (x = -ln v ~ -709)
+            let sc = 10f64.powf(r.uniform(-40.0, -22.0));
+            for c in form.iter_mut() {
+                *c *= sc / c.abs().max(1e-3).min(1e3).max(1.0);
+            }
+        }
         let q = IntOfLogPoly4::from_nums(&form);
         m.eval();
         m.count(&format!("form:{}", fc));
